@@ -128,10 +128,11 @@ def run(ctx):
     f = p.cls(INMEM).methods.get("get_all_trials")
     ctx.require(f is not None, "R04.3: InMemoryStorage.get_all_trials vanished")
     g = CFG(f.node, name=f.qualname)
-    cur_stores = [n for n in g.stmt_nodes() if n.kind == "stmt" and isinstance(n.ast, ast.Assign)
-                  and any(isinstance(t, ast.Subscript) and self_attr(t.value) == "_prev_waiting_trial_number" for t in n.ast.targets)]
-    ctx.floor("R04.3", "cursor_stores", len(cur_stores), 1)
     defs = single_defs(f.node)
+    # (the cursor dict may be reached through a local alias: `cursor = self._prev_waiting_trial_number`)
+    cur_stores = [n for n in g.stmt_nodes() if n.kind == "stmt" and isinstance(n.ast, ast.Assign)
+                  and any(isinstance(t, ast.Subscript) and self_attr(resolve(t.value, defs)) == "_prev_waiting_trial_number" for t in n.ast.targets)]
+    ctx.floor("R04.3", "cursor_stores", len(cur_stores), 1)
     TRIALS = "self._studies[study_id].trials"
     CURSOR = "self._prev_waiting_trial_number[study_id]"
 
